@@ -20,8 +20,22 @@ func main() {
 		cmdVerify(os.Args[2:])
 	case "check":
 		cmdCheck(os.Args[2:])
+	case "baseline":
+		cmdBaseline(os.Args[2:])
 	case "list":
 		cmdList(os.Args[2:])
+	case "modset":
+		p := mustLoad()
+		for _, k := range os.Args[2:] {
+			if fi := p.funcs[k]; fi != nil {
+				var ks []string
+				for m := range p.modset(fi) {
+					ks = append(ks, m)
+				}
+				sort.Strings(ks)
+				fmt.Println(k, ks)
+			}
+		}
 	default:
 		fmt.Fprintln(os.Stderr, "unknown command", os.Args[1])
 		os.Exit(2)
@@ -61,7 +75,14 @@ func cmdVerify(args []string) {
 	fs.Parse(args)
 	p := mustLoad()
 	bad := 0
-	for _, key := range fs.Args() {
+	keys := fs.Args()
+	if len(keys) == 1 && keys[0] == "sweep" {
+		keys = nil
+		for _, fi := range p.sweepFunctions() {
+			keys = append(keys, fi.Key)
+		}
+	}
+	for _, key := range keys {
 		fi := p.funcs[key]
 		if fi == nil {
 			fmt.Println("no such function:", key)
